@@ -241,13 +241,14 @@ class Fn:
 # replaced by a hole, docstring removed) must be the pinned one - otherwise generation is refused - and every str
 # constant is taken from the source into the generated definitions, so a changed literal changes Gen/Quote.v and the
 # theorems are re-checked against it.  The loop model itself is compared with the implementation by the check.
-STRING_SHAPE = "1fa315ae6dca7a55"
+STRING_SHAPE = "de3c3281b4cd1232"
 STRING_MODEL = """
 Fixpoint str_assoc (c : N) (tb : list (N * str)) : str :=
   match tb with [] => [c] | (k, v) :: r => if N.eqb k c then v else str_assoc c r end.
 (* the final out.append of the loop body: the escaped quote, a newline escape of _string_newlines, or c itself *)
 Definition str_plain (c : N) : str := if N.eqb c str_quote then str_quote_esc else str_assoc c str_newlines.
 Inductive sstate := SN | S1 | S2.   (* state 0 / 1 / 2 of the loop *)
+(* linecontinuation=False: the string inside url() (helper.uri); the newline test of the loop is False *)
 Fixpoint hstring_loop (st : sstate) (v : str) : str :=
   match v with
   | [] => match st with SN => [] | S1 => str_end1 | S2 => str_end2 end
@@ -260,7 +261,24 @@ Fixpoint hstring_loop (st : sstate) (v : str) : str :=
     | SN => if N.eqb c str_bs then hstring_loop S1 r else str_plain c ++ hstring_loop SN r
     end
   end.
-Definition hstring (v_value : str) : str := str_fmt_pre ++ hstring_loop SN v_value ++ str_fmt_post.
+(* linecontinuation=True (the default): STRING tokens *)
+Definition str_isnl (c : N) : bool := mem c (map fst str_newlines).      (* c in _string_newlines *)
+Fixpoint hstringc_loop (st : sstate) (v : str) : str :=
+  match v with
+  | [] => match st with SN => [] | S1 => str_end1 | S2 => str_end2 end
+  | c :: r =>
+    match st with
+    | S1 => if N.eqb c str_bs then str_s1_first ++ hstringc_loop S2 r
+            else (if mem c str_hexdigits then str_s1_hex else if str_isnl c then str_s1_nl else str_s1_else)
+                 ++ str_plain c ++ hstringc_loop SN r
+    | S2 => if N.eqb c str_bs then str_s2_first ++ hstringc_loop S1 r
+            else (if mem c str_hexdigits then str_s2_hex else if str_isnl c then str_s2_nl else str_s2_else)
+                 ++ str_plain c ++ hstringc_loop SN r
+    | SN => if N.eqb c str_bs then hstringc_loop S1 r else str_plain c ++ hstringc_loop SN r
+    end
+  end.
+Definition hstring (v_value : str) : str := str_fmt_pre ++ hstringc_loop SN v_value ++ str_fmt_post.
+Definition hstring_uri (v_value : str) : str := str_fmt_pre ++ hstring_loop SN v_value ++ str_fmt_post.
 """
 
 
@@ -274,6 +292,9 @@ class _Holes(ast.NodeTransformer):
 def string_loop(tree):
     import hashlib
     fn = find_func(tree, ["string"])
+    if [a.arg for a in fn.args.args] != ["value", "linecontinuation"] or len(fn.args.defaults) != 1 or \
+            not (isinstance(fn.args.defaults[0], ast.Constant) and fn.args.defaults[0].value is True):
+        raise Refused("helper.string: signature is not (value, linecontinuation=True)")
     body = list(fn.body)
     if body and isinstance(body[0], ast.Expr) and isinstance(body[0].value, ast.Constant) and isinstance(body[0].value.value, str):
         body = body[1:]
@@ -287,13 +308,18 @@ def string_loop(tree):
     if shape != STRING_SHAPE:
         raise Refused("helper.string: the statement shape changed (%s, pinned %s): the hand-written loop model "
                       "hstring_loop no longer describes the code" % (shape, STRING_SHAPE))
-    if len(consts) != 15:
-        raise Refused("helper.string: %d string constants, expected 15" % len(consts))
-    (t1, f1, h1, e1, t2, f2, h2, e2, t0, qe, q, end1, end2, fmt, joiner) = consts
+    if len(consts) != 17:
+        raise Refused("helper.string: %d string constants, expected 17" % len(consts))
+    (t1, f1, h1, n1, e1, t2, f2, h2, n2, e2, t0, qe, q, end1, end2, fmt, joiner) = consts
     if not (t1 == t2 == t0 and len(t0) == 1):
         raise Refused("helper.string: the three backslash tests differ")
     if len(q) != 1 or joiner != "" or fmt.count("%s") != 1 or fmt.count("%") != 1:
         raise Refused("helper.string: quote test / join / format constants")
+    # hstring_uri is the reading of `string(value, False)`: that is how helper.uri must call it
+    ufn = find_func(tree, ["uri"])
+    calls = [n for n in ast.walk(ufn) if isinstance(n, ast.Call) and isinstance(n.func, ast.Name) and n.func.id == "string"]
+    if [ast.unparse(c) for c in calls] != ["string(value, False)"]:
+        raise Refused("helper.uri does not call string(value, False) exactly once: %r" % [ast.unparse(c) for c in calls])
     glob = {}
     for n in tree.body:
         if isinstance(n, ast.Assign) and len(n.targets) == 1 and isinstance(n.targets[0], ast.Name):
@@ -312,8 +338,10 @@ def string_loop(tree):
          "Definition str_newlines : list (N * str) := [%s]." % "; ".join(
              "(%d%%N, %s)" % (ord(k.value), lit(v.value)) for k, v in zip(nl.keys, nl.values)),
          "Definition str_s1_first : str := %s." % lit(f1), "Definition str_s1_hex : str := %s." % lit(h1),
+         "Definition str_s1_nl : str := %s." % lit(n1),
          "Definition str_s1_else : str := %s." % lit(e1), "Definition str_s2_first : str := %s." % lit(f2),
-         "Definition str_s2_hex : str := %s." % lit(h2), "Definition str_s2_else : str := %s." % lit(e2),
+         "Definition str_s2_hex : str := %s." % lit(h2), "Definition str_s2_nl : str := %s." % lit(n2),
+         "Definition str_s2_else : str := %s." % lit(e2),
          "Definition str_end1 : str := %s." % lit(end1), "Definition str_end2 : str := %s." % lit(end2),
          "Definition str_fmt_pre : str := %s." % lit(pre), "Definition str_fmt_post : str := %s." % lit(post)]
     return "(* helper.py : string  (loop; shape pinned, constants regenerated) *)\n" + "\n".join(d) + STRING_MODEL
